@@ -20,3 +20,8 @@ def _wrap(v):
 
 def issues_as_objects(fn, args):
     return _wrap(fn(**args))
+
+
+def method_of_definition_dict(fn, args):
+    from hed.models.definition_dict import DefinitionDict
+    return fn(DefinitionDict.__new__(DefinitionDict), **args)
